@@ -37,7 +37,7 @@ def capability(enc, cfg):
     return (d - 1) // 2, d, src
 
 
-def received_word(ctx, enc, shape_lead, tag, t, blocks=1):
+def received_word(ctx, enc, shape_lead, tag, t, blocks=1, dtype=torch.float32):
     """symbolic m, e with wt(e) <= t per block; r = forward(m) xor e.  Returns (m, e, r) tensors"""
     k, n = enc.generator_matrix.shape
     G = SP.int_matrix(enc.generator_matrix)
@@ -51,7 +51,7 @@ def received_word(ctx, enc, shape_lead, tag, t, blocks=1):
     r = np.empty(cw.shape, dtype=object)
     for idx in np.ndindex(*cw.shape):
         r[idx] = S.mod(S.add(cw[idx], ep[idx]), 2)
-    return m, e, ctx.tensor(r), cw
+    return m, e, ctx.tensor(r, dtype), cw
 
 
 def _sparse_sampler(n, t):
@@ -125,7 +125,7 @@ def _syn_var_cfgs(tier):
     out = []
     for c in _syn_cfgs(tier):
         n = codes.build(c).generator_matrix.shape[1]
-        out += codes.with_variants([c], ["1d", "B1", "Bb", "1db"] + (["ml"] if n <= 12 else []))
+        out += codes.with_variants([c], ["1d", "B1", "Bb", "1db", "1d:int64"] + (["ml"] if n <= 12 else []))
     return out
 
 
@@ -285,25 +285,27 @@ def _rm_var_cfgs(tier):
         n = codes.build(c).generator_matrix.shape[1]
         # the minimum-distance clause for every received word is a cardinality problem over n bits: n <= 8 (the 16-bit instances
         # do not finish within the solver budget; they are covered by the t-error clause and the bounded C02.rm_majority)
-        out += codes.with_variants([c], ["t"] + (["ml"] if n <= 8 else []))
+        out += codes.with_variants([c], ["t", "t:uint8", "t:int64"] + (["ml", "ml:uint8"] if n <= 8 else []))
     return out
 
 
 @obligation("C02.rm_nearest_codeword", function=FE + "reed_muller_code.py:ReedMullerCodeEncoder.inverse_encode", configs=_rm_var_cfgs, timeout_ms=60000)
 def rm_nearest(ctx, vcfg):
-    cfg, name = codes.split_variant(vcfg)
+    cfg, var = codes.split_variant(vcfg)
+    name, _, dtn = var.partition(":")
+    dtype = getattr(torch, dtn) if dtn else torch.float32  # hard bits also arrive as integer tensors (uint8 wraps on subtraction)
     enc = codes.build(cfg)
     k, n = enc.generator_matrix.shape
     t, d, src = capability(enc, cfg)
     G = SP.int_matrix(enc.generator_matrix)
     if name == "t":
-        m, e, r, _ = received_word(ctx, enc, (), "", t)
+        m, e, r, _ = received_word(ctx, enc, (), "", t, dtype=dtype)
         out = ctx.call(enc.inverse_encode, r)
         ctx.ensure("returns", out.ok, note=repr(out.exc) if not out.ok else "")
         if out.ok:
             ctx.ensure("corrects_up_to_t", SP.all_eq(P(out.value[0]), P(m)), note=f"t={t} from {src}")
         return
-    y = ctx.bits("y", (n,))
+    y = ctx.bits("y", (n,), dtype=dtype)
     out = ctx.call(enc.inverse_encode, y)
     ctx.ensure("returns", out.ok)
     if out.ok:
